@@ -404,6 +404,8 @@ impl BlockFilterRpc for BlockFilterRpcImpl {
         scripts: Vec<ScriptStatus>,
         command: Option<SetScriptsCommand>,
     ) -> Result<()> {
+        #[cfg(feature = "verif")]
+        crate::verif_hooks::at(crate::verif_hooks::Point::LockIntent("rpc.set_scripts"));
         let mut matched_blocks = self.swc.matched_blocks().write().expect("poisoned");
         let scripts = scripts.into_iter().map(Into::into).collect();
         self.swc
